@@ -16,11 +16,14 @@ import vf
 UNIVERSE = [
     ("undef", 0, ""), ("obj", 0, ""), ("obj", 1, ""), ("obj", 2, ""), ("arr", 0, ""), ("arr", 1, ""), ("arr", 3, ""),
     ("str", 0, ""), ("str", 0, "61"), ("str", 0, "6162"), ("str", 0, "62"), ("str", 0, "610062"), ("str", 0, "7f"),
-    ("u64", 0, "0"), ("u64", 1, "1"), ("u64", 2, "9223372036854775808"), ("u64", 3, "18446744073709551615"),
-    ("i64", 0, "-9223372036854775807"), ("i64", 1, "-1"), ("i64", 2, "0"), ("i64", 3, "5"), ("i64", 4, "9223372036854775807"),
-    ("real", 0, "-1e300"), ("real", 1, "-1.5"), ("real", 2, "0.0"), ("real", 3, "2.5"), ("real", 4, "1e300"),
+    # numbers: the rank is the position of the VALUE among all numbers of the universe, whatever their kind (numbers compare by value)
+    ("u64", 5, "0"), ("u64", 6, "1"), ("u64", 10, "9223372036854775808"), ("u64", 11, "18446744073709551615"),
+    ("i64", 1, "-9223372036854775807"), ("i64", 4, "-1"), ("i64", 5, "0"), ("i64", 8, "5"), ("i64", 9, "9223372036854775807"),
+    ("real", 0, "-1e300"), ("real", 3, "-1.5"), ("real", 5, "0.0"), ("real", 7, "2.5"), ("real", 13, "1e300"),
     ("true", 0, ""), ("false", 0, ""), ("null", 0, ""),
     ("ptr", 8, ""), ("ptr", 14, ""), ("ptr", 2, ""), ("ptr", 27, ""), ("ptr", 31, ""),   # pointers to "a", 1, {..}, true, and to a pointer
+    # (appended so that the pointer targets above keep their positions) equal and neighbouring values of different number kinds
+    ("u64", 8, "5"), ("real", 8, "5.0"), ("real", 10, "9223372036854775808.0"), ("real", 12, "18446744073709551616.0"), ("i64", 2, "-2"),
 ]
 
 
